@@ -135,10 +135,9 @@ class MultipartDecoder:
         """
         boundary = b"--" + self.boundary
         index = len(data)
-        marker_index = data.rfind(boundary)
 
-        if marker_index != -1:
-            match = self._undecided_boundary_re.search(data, max(0, marker_index - 2))
+        if data.find(boundary) != -1:
+            match = self._undecided_boundary_re.search(data)
 
             if match is not None:
                 index = match.start()
